@@ -518,4 +518,93 @@ example : (Regs.run NB.Gen.P
 example : Regs.Canon ⟨[[B - 1, B - 1], [1], [5]], [⟨.minus, [3]⟩, ⟨.plus, [3]⟩]⟩ := by
   constructor <;> decide
 
+/-! ## API-coverage additions: `PartialOrd`, and values produced by the `Arbitrary` generator impls -/
+
+/-- `partial_cmp` is `Some` of the numerical order -/
+theorem biguint_partial_cmp_spec {a b : List Nat} (ha : Canon a) (hb : Canon b) :
+    BigUint.partialCmp a b = some (compare (val a) (val b)) := by
+  unfold BigUint.partialCmp; rw [biguint_cmp_spec ha hb]
+
+theorem bigint_partial_cmp_spec {x y : BigInt} (hx : x.Canon) (hy : y.Canon) :
+    BigInt.partialCmp x y = some (compare x.val y.val) := by
+  unfold BigInt.partialCmp; rw [bigint_cmp_spec hx hy]
+
+/-- the provided `<` of `PartialOrd` is numerical `<` (both types) -/
+theorem biguint_lt_spec {a b : List Nat} (ha : Canon a) (hb : Canon b) :
+    pLt (BigUint.partialCmp a b) = true ↔ val a < val b := by
+  rw [biguint_partial_cmp_spec ha hb, compare_nat_eq]
+  by_cases h1 : val a < val b
+  · simp [h1, pLt]
+  · by_cases h2 : val a = val b
+    · simp [h2, pLt]
+    · simp [h1, h2, pLt]
+
+theorem bigint_lt_spec {x y : BigInt} (hx : x.Canon) (hy : y.Canon) :
+    pLt (BigInt.partialCmp x y) = true ↔ x.val < y.val := by
+  rw [bigint_partial_cmp_spec hx hy, compare_int_eq]
+  by_cases h1 : x.val < y.val
+  · simp [h1, pLt]
+  · by_cases h2 : x.val = y.val
+    · simp [h2, pLt]
+    · simp [h1, h2, pLt]
+
+/-- bytes are `u8`s (the type invariant of `&[u8]`) -/
+def BytesOk (bs : List Nat) : Prop := ∀ b ∈ bs, b < 256
+
+theorem leBytes_lt (l : List Nat) (h : BytesOk l) : leBytes l < 256 ^ l.length := by
+  induction l with
+  | nil => simp [leBytes]
+  | cons b bs ih =>
+    have hb : b < 256 := h b (by simp)
+    have hbs : BytesOk bs := fun x hx => h x (by simp [hx])
+    have := ih hbs
+    simp only [leBytes, List.length_cons, Nat.pow_succ]
+    omega
+
+theorem leBytes_take_lt_B (l : List Nat) (h : BytesOk l) : leBytes (l.take u64Bytes) < B := by
+  have hk : BytesOk (l.take u64Bytes) := fun x hx => h x (List.mem_of_mem_take hx)
+  have h1 := leBytes_lt _ hk
+  have h2 : (l.take u64Bytes).length ≤ 8 := by simp [u64Bytes]
+  have h3 : 256 ^ (l.take u64Bytes).length ≤ 256 ^ 8 := Nat.pow_le_pow_right (by decide) h2
+  have h4 : (256 : Nat) ^ 8 = B := by decide
+  omega
+
+/-- every element decoded by the `arbitrary` crate's `Vec<u64>` impl is a proper digit -/
+theorem arbVecU64_digitsOk (fuel : Nat) (bs : List Nat) (h : BytesOk bs) : DigitsOk (arbVecU64 fuel bs).1 := by
+  induction fuel generalizing bs with
+  | zero => simp [arbVecU64]; exact DigitsOk.nil
+  | succ n ih =>
+    cases bs with
+    | nil => simp [arbVecU64]; exact DigitsOk.nil
+    | cons b rest =>
+      have hrest : BytesOk rest := fun x hx => h x (by simp [hx])
+      simp only [arbVecU64]
+      split
+      · exact DigitsOk.cons (leBytes_take_lt_B rest hrest)
+          (ih _ (fun x hx => hrest x (List.mem_of_mem_drop hx)))
+      · exact DigitsOk.nil
+
+/-- `arbitrary::Arbitrary for BigUint` (both `arbitrary` and `arbitrary_take_rest`): for EVERY byte buffer the
+    result is the canonical representation of the integer denoted by the decoded digit vector — whatever number
+    of high zero digits the buffer encodes -/
+theorem arb_biguint_spec (bs : List Nat) (h : BytesOk bs) :
+    BigUint.arbitrary bs = ofNat (val (arbVecU64 (bs.length + 1) bs).1) := by
+  unfold BigUint.arbitrary
+  exact biguint_from_vec_spec _ (arbVecU64_digitsOk _ _ h)
+
+theorem arb_biguint_canon (bs : List Nat) (h : BytesOk bs) : Canon (BigUint.arbitrary bs) := by
+  rw [arb_biguint_spec bs h]; exact ofNat_canon _
+
+/-- `arbitrary::Arbitrary for BigInt`: canonical for every byte buffer (a zero magnitude gives `NoSign` whichever
+    sign the leading bool byte requests) -/
+theorem arb_bigint_canon (bs : List Nat) (h : BytesOk bs) : (BigInt.arbitrary bs).Canon := by
+  unfold BigInt.arbitrary
+  have hd : BytesOk (bs.drop 1) := fun x hx => h x (List.mem_of_mem_drop hx)
+  rw [bigint_from_biguint_spec _ _ (arb_biguint_canon _ hd)]
+  exact bigint_ofInt_canon _
+
+example : BigUint.arbitrary [1, 5, 0, 0, 0, 0, 0, 0, 0, 3, 0, 0, 0, 0, 0, 0, 0, 0, 2, 9] = [5] := by decide
+example : BigInt.arbitrary [0, 1, 0, 0, 0, 0, 0, 0, 0, 0] = ⟨.nosign, []⟩ ∧ BigInt.arbitrary [2, 1, 7] = ⟨.minus, [7]⟩ := by
+  decide
+
 end NB
